@@ -97,6 +97,25 @@ ENGINES_EXTRA += [
  {'name': 'cmp', 'path': 'coq/theories/Cmp + ocaml/driver_cmp.ml + harness/cmp_*.py', 'serves_properties': ['C20'], 'kind_free_text': 'model of compare_netlists.Comparer on pure netlist values; differential run on (netlist, copy, mutation) pairs'},
 ]
 
+CHECKS.update({
+ 'C03': dict(engine='edif', note='Trusted: Coq 8.16.1 kernel; extraction; ocaml/driver_edif.ml; harness/edif_*.py (independent EDIF writer, s-expression reader and elaborator). The models cover six mechanisms, the one-cable pipeline and the net loop of one cell; library/cell/instance/port parsing, reference resolution, EdififyNames and rename bookkeeping are tied to the code only by the whole-file oracle (C03_full is a Definition). 8 open known findings. Names containing * or ? are outside the net-loop model.',
+   technique='Coq proof of the write/read mechanisms and of the one-cable / one-cell-nets pipeline + correspondence of the extracted models with the real functions called directly + whole-file round-trip oracle on generated netlists and all bundled files',
+   text='proof (mechanisms; refuted clauses): toposort (permutation, dependencies first, termination on acyclic input, fixpoint), decimal and bit-name inverse with exact side conditions, multibit assembly for any order and any subset of bits, member-index inverse, print/tokenize/read inverse, one-cable and one-cell net round trip (Props/C03.v, 28 obligations). REFUTED inside the quantifier with witnesses replayed on the implementation: buses whose identifier starts with &_ and scalars named like a bus bit. The whole-file statement C03_full is decided by the oracle only.',
+   design='DESIGN.md 5/C03, 10'),
+ 'C05': dict(engine='edif', note='Trusted: as C03. 12 open known-finding entries (4 of them bundled example files).',
+   technique='Coq proof of the reader mechanisms + correspondence of the extracted models with the real reader functions + oracle: abstract designs rendered by an independent writer, elaborated independently, vs the parsed netlist',
+   text='proof (mechanisms; refuted clause): tokenizer/reader inverse and non-empty tokens, exact recognition of bit names, multibit assembly for any order/subset, bus read = assemble, member read (Props/C05.v, 19 obligations). REFUTED: a second net for the bit equal to the current lower index is prepended (C05_refuted_duplicate_lower_bit; bundled float_demo.edf). C05_full is decided by the oracle only.',
+   design='DESIGN.md 5/C05, 10'),
+ 'C16': dict(engine='purity', note='Trusted: Coq 8.16.1 kernel; harness/purity_check.py (identity-level snapshots through the read API + _data/_pins). The theorems cover the EDIF pre-pass only (reorder + identifier recording); for Verilog/EBLIF there is no pre-pass to model, and "the netlist is unchanged / output repeatable / file complete and closed" are decided on the implementation (runtime residue for the file handle).',
+   technique='Coq proof (EDIF pre-pass: sorted permutation, fixpoint, identifier pass idempotent and never touching existing identifiers) + identity-level before/after snapshots and byte comparison of repeated outputs on the implementation, all formats and options',
+   text='proof (partial): the EDIF writer\'s reorder is a dependency-respecting permutation and the identity on an ordered list; identifier recording keeps names, never touches an element that has an identifier and is idempotent (Props/C16.v). On the implementation: every reachable object is snapshotted before and after compose in each format/option setting, only the documented EDIF side effects are accepted, repeated composition (immediately and after queries) must give the same bytes modulo timestamp, and a directly used Verilog Composer must have closed its file.',
+   design='DESIGN.md 5/C16, 10'),
+})
+ENGINES_EXTRA += [
+ {'name': 'edif', 'path': 'coq/theories/Fmt/Edif*.v + ocaml/driver_edif.ml + harness/edif_*.py', 'serves_properties': ['C03', 'C05'], 'kind_free_text': 'EDIF writer/reader mechanisms (toposort, bit names, multibit assembly, member index, tokenizer/printer, net loop of one cell); mechanism-level differential run; whole-file oracles'},
+ {'name': 'purity', 'path': 'coq/theories/Proofs/PurityProofs.v + harness/purity_check.py', 'serves_properties': ['C16'], 'kind_free_text': 'idempotence of the EDIF pre-pass; before/after snapshots of compose in the three formats'},
+]
+
 ENGINES = [
  {'name': 'ir', 'path': 'coq/theories/IR + ocaml/driver_ir.ml + harness/ir_*.py', 'serves_properties': ['C01', 'C02', 'C10', 'C14', 'C19'],
   'kind_free_text': 'Gallina model of all public IR mutators and of the namespace manager, extracted to OCaml; differential run against the real spydrnet with canonical dumps after every call'},
